@@ -50,6 +50,25 @@ fn judge_result<T: Clone + Debug + Eq + 'static, E: Clone + Debug + Eq + 'static
   Ok(())
 }
 
+fn misc(c: Ck, sel: u8, a: u8, b: u8) -> CheckResult {
+  fn both<T: Clone + Debug + Eq + 'static>(c: Ck, x: T, y: T, a: u8, b: u8) -> CheckResult {
+    judge_equals(&x, &y)?;
+    // ... and as Ok / Err payloads (which side is chosen by the low bit of the small values).
+    let wrap = |v: &T, k: u8| -> Result<T, T> { if k % 2 == 0 { Ok(v.clone()) } else { Err(v.clone()) } };
+    judge_result(c, &wrap(&x, a), &wrap(&y, b))
+  }
+  match sel % 8 {
+    0 => both(c, ((a as i128) << 64) | 7, ((b as i128) << 64) | 7, a, b),
+    1 => { let f = |v: u8| -> Option<Option<u8>> { match v % 3 { 0 => None, 1 => Some(None), _ => Some(Some(v)) } }; both(c, f(a), f(b), a, b) }
+    2 => both(c, std::rc::Rc::new(a), std::rc::Rc::new(b), a, b),
+    3 => { let e: [u8; 0] = []; both(c, e, e, a, b) }
+    4 => { let f = |v: u8| -> &'static str { ["", "a", "b", "ab"][v as usize % 4] }; both(c, f(a), f(b), a, b) }
+    5 => both(c, (b'a' + a % 3) as char, (b'a' + b % 3) as char, a, b),
+    6 => both(c, (1u64 << 40, a as u64), (1u64 << 40, b as u64), a, b),
+    _ => { let f = |v: u8| -> Option<Result<u8, ()>> { match v % 3 { 0 => None, 1 => Some(Err(())), _ => Some(Ok(v)) } }; both(c, f(a), f(b), a, b) }
+  }
+}
+
 fn cow(borrowed: bool, s: &str) -> std::borrow::Cow<'static, str> {
   if borrowed { std::borrow::Cow::Borrowed(match s { "" => "", "a" => "a", "b" => "b", _ => "c" }) } else { std::borrow::Cow::Owned(match s { "" | "a" | "b" => s.to_string(), _ => "c".to_string() }) }
 }
@@ -102,6 +121,10 @@ pub enum Pair {
   EqPath(u8, u8),
   PathP(Ck, Result<u8, u8>, Result<u8, u8>),
   EqSet(Vec<u8>, Vec<u8>),
+  /// A grab bag of further output types for EqualsChecker / AlwaysConsistent and, wrapped in Result, the other checkers:
+  /// selector 0 i128 differing only above bit 64, 1 nested options, 2 Rc<u8>, 3 empty array, 4 &'static str, 5 char,
+  /// 6 (u64, u64), 7 Option<Result<u8, ()>>.
+  Misc(Ck, u8, u8, u8),
   /// Payload types whose Debug text and Eq disagree (the relation is defined by Eq).
   TerseP(Ck, Result<Terse, Terse>, Result<Terse, Terse>),
   LooseP(Ck, Result<Loose, Loose>, Result<Loose, Loose>),
@@ -135,6 +158,7 @@ pub fn check(p: &Pair, stats: &mut Stats) -> CheckResult {
     Pair::EqPath(a, b) => { stats.class("std_type_with_non_bytewise_equality"); (judge_equals(&path(*a), &path(*b)), true) }
     Pair::PathP(c, a, b) => { stats.class("std_type_with_non_bytewise_equality"); (judge_result(*c, &path_res(a), &path_res(b)), true) }
     Pair::EqSet(a, b) => { stats.class("std_type_with_non_bytewise_equality"); (judge_equals(&hset(a), &hset(b)), true) }
+    Pair::Misc(c, sel, a, b) => { stats.class("misc_output_type"); (misc(*c, *sel, *a, *b), a != b) }
     Pair::TerseP(c, a, b) => { stats.class("payload_whose_debug_text_and_eq_disagree"); (judge_result(*c, a, b), true) }
     Pair::LooseP(c, a, b) => { stats.class("payload_whose_debug_text_and_eq_disagree"); (judge_result(*c, a, b), true) }
     Pair::EqTerse(a, b) => (judge_equals(a, b), a != b),
@@ -164,6 +188,7 @@ pub fn check(p: &Pair, stats: &mut Stats) -> CheckResult {
     Pair::EqPath(a, _) => judge_equals(&path(*a), &path(*a)),
     Pair::PathP(c, a, _) => judge_result(*c, &path_res(a), &path_res(a)),
     Pair::EqSet(a, _) => { let mut r = a.clone(); r.reverse(); judge_equals(&hset(a), &hset(&r)) }
+    Pair::Misc(c, sel, a, _) => misc(*c, *sel, *a, *a),
     Pair::TerseP(c, a, _) => judge_result(*c, a, a),
     Pair::LooseP(c, a, _) => judge_result(*c, a, a),
     Pair::EqTerse(a, _) => judge_equals(a, a),
@@ -196,6 +221,7 @@ pub fn strategy() -> impl Strategy<Value=Pair> {
   fn var() -> impl Strategy<Value=Var> { (any::<bool>(), 0u8..2).prop_map(|(v, x)| if v { Var::A(x) } else { Var::B(x) }) }
   fn tiny() -> impl Strategy<Value=String> { prop_oneof![Just(String::new()), Just("a".to_string()), Just("b".to_string())] }
   prop_oneof![
+    3 => (ck(), 0u8..8, 0u8..6, 0u8..6).prop_map(|(c, sel, a, b)| Pair::Misc(c, sel, a, b)),
     1 => (0u8..7, 0u8..7).prop_map(|(a, b)| Pair::EqPath(a, b)),
     2 => (ck(), res(0u8..7, 0u8..7), res(0u8..7, 0u8..7)).prop_map(|(c, a, b)| Pair::PathP(c, a, b)),
     1 => (proptest::collection::vec(0u8..4, 0..4), proptest::collection::vec(0u8..4, 0..4)).prop_map(|(a, b)| Pair::EqSet(a, b)),
@@ -229,7 +255,7 @@ pub fn replay(path: &Path) -> Result<CheckResult, String> {
 }
 
 pub fn run(tier: Tier, seed: u64) -> i32 {
-  let rule = "all five built-in checkers through both the OutputChecker methods and the object-safe OutputCheckerObj proxy: (1) exhaustive over all 8x8 pairs of Result<u8 in 0..4, u8 in 0..4> x 5 checkers; (1b) exhaustive over Result<u8,()>, Result<(),u8>, Result<(),()> (zero-sized payload types); (2) proptest-generated pairs of Result<String,String>, Result<(u8,String),Vec<u8>>, Result<String,UnitStruct>, Result<UnitStruct,String>, Result<[u8;24],u64>, payload types whose Debug text is terser / finer than their Eq, enums (and Cow<str>) equal across variants, PathBuf spellings and HashSet, and Option/tuple/Vec values for EqualsChecker; oracle: check(o2, stamp(o1)) is consistent iff the documented relation holds, plus reflexivity; non-trivial = pair on which the relation differs from plain equality (or an unequal pair for EqualsChecker); distinct by value hash";
+  let rule = "all five built-in checkers through both the OutputChecker methods and the object-safe OutputCheckerObj proxy: (1) exhaustive over all 8x8 pairs of Result<u8 in 0..4, u8 in 0..4> x 5 checkers; (1b) exhaustive over Result<u8,()>, Result<(),u8>, Result<(),()> (zero-sized payload types); (2) proptest-generated pairs of Result<String,String>, Result<(u8,String),Vec<u8>>, Result<String,UnitStruct>, Result<UnitStruct,String>, Result<[u8;24],u64>, payload types whose Debug text is terser / finer than their Eq, enums (and Cow<str>) equal across variants, PathBuf spellings, HashSet, i128, nested options, Rc, empty arrays, &'static str, char, wide tuples, and Option/tuple/Vec values for EqualsChecker; oracle: check(o2, stamp(o1)) is consistent iff the documented relation holds, plus reflexivity; non-trivial = pair on which the relation differs from plain equality (or an unequal pair for EqualsChecker); distinct by value hash";
   let mut report = Report::new("C12", tier, seed, "exploration", rule);
   let known = Known::load("C12");
   super::prologue(&mut report, &known);
